@@ -47,6 +47,12 @@ fn bases() -> &'static Vec<Base> {
             xy.push(xy[0].clone());
             st.elems.push(gds21::GdsElement::GdsBoundary(gds21::GdsBoundary { layer: 1, datatype: 0, xy, ..Default::default() }));
             st.elems.push(gds21::GdsElement::GdsTextElem(gds21::GdsTextElem { string: "t".into(), layer: 1, texttype: 0, xy: gds21::GdsPoint::new(1, 1), ..Default::default() }));
+            // long labels made of multi-byte characters, at each of the three alignments
+            for k in 0..3 {
+                let s = format!("{}{}", "x".repeat(k), "中".repeat(230));
+                st.elems.push(gds21::GdsElement::GdsTextElem(gds21::GdsTextElem { string: s, layer: 2, texttype: 0, xy: gds21::GdsPoint::new(2, 2), ..Default::default() }));
+            }
+            st.elems.push(gds21::GdsElement::GdsStructRef(gds21::GdsStructRef { name: "ж".repeat(300), xy: gds21::GdsPoint::new(0, 0), ..Default::default() }));
             lib.structs.push(st);
             let mut bytes = vec![];
             if lib.write(&mut bytes).is_ok() {
